@@ -301,4 +301,3 @@ func relayerHistory(w *tracew.Writer, seed int64, run, depth int, period, timeou
 	}
 	return nil
 }
-
